@@ -206,6 +206,11 @@ def lock_events(f, mod):
             ev.setdefault(i.id, []).append(('acq', 'syslock'))
         elif c == 'system_unlock' or b in ('igris::syslock::unlock', 'igris::syslock_guard::~syslock_guard'):
             ev.setdefault(i.id, []).append(('rel', 'syslock'))
+        elif c == 'system_lock_save':
+            # releases every nested hold of the calling thread (R-DEPTH proves that of the implementation)
+            ev.setdefault(i.id, []).append(('save', 'syslock'))
+        elif c == 'system_lock_restore':
+            ev.setdefault(i.id, []).append(('restore', 'syslock'))
         elif b in tuple(m + '::lock' for m in MUTEX_TYPES):
             ev.setdefault(i.id, []).append(('acq', ptr_name(f, mod, i.ops[0])))
         elif b in tuple(m + '::unlock' for m in MUTEX_TYPES):
@@ -241,7 +246,7 @@ class St:
         self.facts = facts
 
     def key(self):
-        return (tuple(sorted(self.depth.items())), self.released, self.facts)
+        return (tuple(sorted(self.depth.items())), self.released, frozenset(map(repr, self.facts)))
 
     def lo(self, lk):
         return self.depth.get(lk, (0, 0))[0]
@@ -292,14 +297,23 @@ class Flow:
             return s
         d = dict(s.depth)
         rel = s.released
+        facts = s.facts
         for (kind, lk) in (evs or ()):
             lo, hi = d.get(lk, (0, 0))
             if kind == 'acq':
                 d[lk] = (min(lo + 1, CAP), min(hi + 1, CAP))
+            elif kind == 'save':
+                facts = frozenset(x for x in facts if not (isinstance(x, tuple) and x[0] == 'saved' and x[1] == lk))
+                facts = facts | frozenset([('saved', lk, lo, hi)])
+                d[lk] = (0, 0)
+                rel = rel | frozenset([lk])
+            elif kind == 'restore':
+                sv = [x for x in facts if isinstance(x, tuple) and x[0] == 'saved' and x[1] == lk]
+                d[lk] = (sv[0][2], sv[0][3]) if len(sv) == 1 else (-CAP, CAP)
+                facts = frozenset(x for x in facts if x not in sv)
             else:
                 d[lk] = (max(lo - 1, -CAP), max(hi - 1, -CAP))
                 rel = rel | frozenset([lk])
-        facts = s.facts
         if k:
             facts = frozenset(x for x in facts if not k(x))
         if g:
@@ -341,8 +355,9 @@ class Flow:
                 if i.op == 'dbg':
                     continue
                 self.pre[i.id] = s
-                for (kind, lk) in self.events.get(i.id, ()):
-                    if kind == 'rel' and s.lo(lk) < 1:
+                cur = s
+                for n_, (kind, lk) in enumerate(self.events.get(i.id, ())):
+                    if kind in ('rel', 'save') and cur.lo(lk) < 1:
                         self.bad_release.append((i, lk))
                 s = self.step(i, s)
 
